@@ -19,6 +19,7 @@ import (
 	_ "github.com/google/pprof/verif/checks/c15"
 	_ "github.com/google/pprof/verif/checks/c16"
 	_ "github.com/google/pprof/verif/checks/c17"
+	_ "github.com/google/pprof/verif/checks/c18"
 	"github.com/google/pprof/verif/internal/harness"
 )
 
